@@ -55,6 +55,8 @@ pub struct Profile {
     pub stray_funds_pct: u64,
     /// histories that start with a close whose whole-close price lands exactly on the band edge
     pub exact_edge_pct: u64,
+    /// histories that start with a liquidation attempted while the spot price sits exactly on the band limit
+    pub exact_edge_liq_pct: u64,
 }
 
 impl Default for Profile {
@@ -84,6 +86,7 @@ impl Default for Profile {
             long_pct: 2,
             stray_funds_pct: 0,
             exact_edge_pct: 2,
+            exact_edge_liq_pct: 1,
         }
     }
 }
@@ -807,8 +810,14 @@ impl Gen {
         }
         // keep the attacker's name at least 3 characters long (shorter addresses cannot hold balances)
         let k = self.rng.range(1, victim.len() as u64 - 3) as usize;
-        let fake_vamm = format!("{}{}", Self::vaddr(h, v), &victim[..k]);
-        let attacker = victim[k..].to_string();
+        let mut fake_vamm = format!("{}{}", Self::vaddr(h, v), &victim[..k]);
+        let mut attacker = victim[k..].to_string();
+        // one time in four the attacker is the account whose address differs from the victim's only in letter case,
+        // and it names the real vAMM
+        if self.rng.chance(1, 4) && TRADERS.contains(&victim.as_str()) {
+            fake_vamm = Self::vaddr(h, v);
+            attacker = case_variant(&victim);
+        }
         let d = h.w.d;
         let msg = match self.rng.below(6) {
             0 | 1 => eng::ExecuteMsg::ClosePosition { vamm: fake_vamm, quote_asset_limit: u(0) },
@@ -819,9 +828,14 @@ impl Gen {
         };
         // the attacker is a real account: give it collateral and (cw20) an allowance so that nothing but
         // the engine's own checks stands in its way
-        if h.last.bal(&attacker) < 10 * d {
+        // (neither the token nor the bank module accepts an address that is not in normal form, so a case-variant account
+        // holds nothing; ClosePosition and WithdrawMargin need no funds)
+        let normal_form = attacker.chars().all(|c| !c.is_ascii_uppercase());
+        if h.last.bal(&attacker) < 10 * d && normal_form {
             h.step(Op::Send { from: "bank".into(), to: attacker.clone(), amount: 1000 * d }, r);
-            h.step(Op::Allowance { owner: attacker.clone(), amount: u128::MAX / 4 }, r);
+            if h.w.cw20.is_some() {
+                h.step(Op::Allowance { owner: attacker.clone(), amount: u128::MAX / 4 }, r);
+            }
         }
         let msg = match msg {
             eng::ExecuteMsg::DepositMargin { vamm, .. } => eng::ExecuteMsg::DepositMargin { vamm, amount: u(self.rng.log_uniform(1, 5 * d)) },
@@ -1304,6 +1318,66 @@ impl Gen {
         self.close(h, r, t, v, 0);
     }
 
+    /// A liquidation attempted while the spot price sits EXACTLY on the upper limit of the band (on it is not outside it),
+    /// with no rounding anywhere. On a market nobody else trades on: the victim shorts a fifth of the quote reserve
+    /// (reserves x0.8 / x1.25); next block the whale buys 45 % of the original quote reserve (x1.25 / x0.8 of the
+    /// original, price x1.5625 of the original); a quarter of an hour later, so that the TWAP has caught up, the limit is
+    /// set to 63.84 % and the whale buys another 35 % (x1.6 / x0.625): the price is now 1.6384 x the previous block's
+    /// price, exactly the upper limit. The victim is deep under water by spot and TWAP and is liquidated in that block.
+    pub fn macro_exact_edge_liquidation(&mut self, h: &mut History, r: &mut Report) {
+        let d = h.w.d;
+        let cands: Vec<usize> = (0..h.w.vamms.len()).filter(|i| { let v = &h.last.vamms[*i]; v.tps == 0 && v.open && v.registered && v.q % 100 == 0 && v.b % 64 == 0 }).collect();
+        if cands.is_empty() || h.last.eng.paused || h.last.eng.liq_fee == 0 {
+            return;
+        }
+        let v = *self.rng.pick(&cands);
+        let victim = TRADERS[self.rng.below(4) as usize];
+        if h.last.pos(v, victim).is_some() || h.last.pos(v, "whale").is_some() {
+            return;
+        }
+        let owner = h.last.eng.owner.clone();
+        // the full path unless the deployment's partial ratio is kept (one time in three)
+        if h.last.eng.partial != 0 && self.rng.chance(2, 3) && !self.eng_cfg(h, r, &owner, None, None, Some(0), None).out.ok {
+            return;
+        }
+        if h.last.vamms[v].fluct != 0 && !self.vamm_cfg(h, r, v, |c| c.fluct = Some(0)).out.ok {
+            return;
+        }
+        let q0 = h.last.vamms[v].q;
+        let init = h.last.eng.initial.max(1);
+        let kmax = (d / init).clamp(1, 10);
+        let lev_for = |n: u128| (1..=kmax).rev().find(|k| n % k == 0).unwrap_or(1);
+        // collateral for the three trades and a fund that can cover the victim's bad debt
+        let ins = h.w.insurance.to_string();
+        h.step(Op::Send { from: "bank".into(), to: "whale".into(), amount: q0 }, r);
+        h.step(Op::Send { from: "bank".into(), to: victim.into(), amount: q0 / 4 }, r);
+        h.step(Op::Send { from: "bank".into(), to: ins, amount: q0 * 4 }, r);
+        let n1 = q0 / 5;
+        let k1 = lev_for(n1);
+        if !self.open(h, r, victim, v, false, n1 / k1, k1 * d, 0).out.ok {
+            return;
+        }
+        self.advance(h, r, 1, 6);
+        let n2 = q0 / 100 * 45;
+        let k2 = lev_for(n2);
+        if !self.open(h, r, "whale", v, true, n2 / k2, k2 * d, 0).out.ok {
+            return;
+        }
+        self.advance(h, r, 160, 16 * 60);
+        if !self.vamm_cfg(h, r, v, |c| c.fluct = Some(d / 10_000 * 6384)).out.ok {
+            return;
+        }
+        let n3 = q0 / 100 * 35;
+        let k3 = lev_for(n3);
+        if !self.open(h, r, "whale", v, true, n3 / k3, k3 * d, 0).out.ok {
+            return;
+        }
+        let spot = h.last.vamms[v].spot;
+        self.oracle(h, r, spot);
+        let caller = *self.rng.pick(&["liquidator", "stranger"]);
+        self.liquidate(h, r, caller, v, victim, 0);
+    }
+
     pub fn macro_same_block(&mut self, h: &mut History, r: &mut Report) {
         // a few operations by several traders without advancing the block, then a liquidation attempt, then more
         let v = self.pick_vamm(h);
@@ -1581,6 +1655,9 @@ impl Gen {
         let n = if self.rng.chance(self.prof.long_pct, 100) { self.rng.range(400, 1500) } else { self.rng.range(self.prof.steps.0, self.prof.steps.1) };
         if self.rng.chance(self.prof.exact_edge_pct, 100) {
             self.macro_exact_edge_close(h, r);
+        }
+        if self.rng.chance(self.prof.exact_edge_liq_pct, 100) {
+            self.macro_exact_edge_liquidation(h, r);
         }
         // seed a few positions so that early steps are not vacuous
         for _ in 0..3 {
